@@ -549,3 +549,131 @@ func verifLemma_C37_validate_area_emits_only_valid(s1, s2 ValidationState) {
 	verifrt.Assert((len(fs) == 1) == (want == ValidationStateValid), "emitted-iff-valid")
 	verifrt.Assert((len(v.queue) == 1) == (want == ValidationStateUnknown), "queued-iff-unknown")
 }
+
+// ---- C11: remaining list codecs and composite records, bounded shapes --------------------
+// Path mode: lists of two or three elements, values small enough for one-byte
+// varints unless stated; every branch outcome is enumerated.
+
+func verifLemma_C11_mixed_list(r1, r2 Reference, ll LatLng, primary TypeAndNamespace) {
+	verifrt.Assume(r1.Value < 32 && r2.Value < 32 && r1.TypeAndNamespace < 64 && r2.TypeAndNamespace < 64 && primary < 64)
+	// ReferenceInvald is a package variable initialised to the zero Reference and never assigned
+	verifrt.Assume(ReferenceInvald == Reference{})
+	verifrt.Assume(r1 != ReferenceInvald && r2 != ReferenceInvald)
+	verifrt.Assume(ll.LatE7 > -32 && ll.LatE7 < 32 && ll.LngE7 > -32 && ll.LngE7 < 32)
+	var buffer [64]byte
+	g := ReferencesAndLatLngs{{Reference: r1}, {LatLng: ll}, {Reference: r2}}
+	n := g.Marshal(primary, buffer[0:])
+	var got ReferencesAndLatLngs
+	m := got.Unmarshal(primary, buffer[0:])
+	verifrt.Assert(m == n, "consumes-what-was-written")
+	verifrt.Assert(len(got) == 3, "length")
+	verifrt.Assert(got[0].Reference == r1 && got[2].Reference == r2, "references")
+	verifrt.Assert(got[1].LatLng == ll && got[1].Reference == ReferenceInvald, "latlng")
+}
+
+func verifLemma_C11_bits(b0, b1, b2, b3, b4, b5, b6, b7, b8, b9 bool) {
+	var buffer [16]byte
+	in := Bits{b0, b1, b2, b3, b4, b5, b6, b7, b8, b9}
+	n := in.Marshal(buffer[0:])
+	var got Bits
+	m := got.Unmarshal(buffer[0:])
+	verifrt.Assert(m == n, "consumes-what-was-written")
+	verifrt.Assert(len(got) == 10, "length")
+	verifrt.Assert(got[0] == b0 && got[1] == b1 && got[2] == b2 && got[3] == b3 && got[4] == b4 && got[5] == b5 && got[6] == b6 && got[7] == b7 && got[8] == b8 && got[9] == b9, "bits")
+}
+
+func verifLemma_C11_members(m1, m2 Member, primary TypeAndNamespace) {
+	verifrt.Assume(m1.Type >= 0 && m1.Type < 4 && m2.Type >= 0 && m2.Type < 4 && m1.Role >= 0 && m1.Role < 16 && m2.Role >= 0 && m2.Role < 16)
+	verifrt.Assume(m1.ID.Value < 32 && m2.ID.Value < 32 && m1.ID.TypeAndNamespace < 64 && m2.ID.TypeAndNamespace < 64 && primary < 64)
+	var buffer [64]byte
+	in := Members{m1, m2}
+	n := in.Marshal(primary, buffer[0:])
+	var got Members
+	k := got.Unmarshal(primary, buffer[0:])
+	verifrt.Assert(k == n, "consumes-what-was-written")
+	verifrt.Assert(len(got) == 2 && got[0] == m1 && got[1] == m2, "members")
+}
+
+func verifLemma_C11_namespace_indicies(a, b NamespaceIndex) {
+	verifrt.Assume(a.Index >= 0 && a.Index < 128 && b.Index >= 0 && b.Index < 128 && a.TypeAndNamespace < 64 && b.TypeAndNamespace < 64)
+	var buffer [32]byte
+	in := NamespaceIndicies{a, b}
+	n := in.Marshal(buffer[0:])
+	var got NamespaceIndicies
+	k := got.Unmarshal(buffer[0:])
+	verifrt.Assert(k == n, "consumes-what-was-written")
+	verifrt.Assert(len(got) == 2 && got[0] == a && got[1] == b, "elements")
+}
+
+// Composite records: which primary namespace Marshal and Unmarshal hand to each list.
+// One reference per list with a symbolic (type, namespace): the interesting cases are a
+// reference in exactly the primary namespace of its list.
+func vC11Namespaces(p, pa, ar, re Namespace) Namespaces {
+	var nss Namespaces
+	nss[b6.FeatureTypePoint] = p
+	nss[b6.FeatureTypePath] = pa
+	nss[b6.FeatureTypeArea] = ar
+	nss[b6.FeatureTypeRelation] = re
+	return nss
+}
+
+func verifLemma_C11_area_record(rel Reference, path Reference, p, pa, ar, re Namespace) {
+	verifrt.Assume(p < 8 && pa < 8 && ar < 8 && re < 8 && rel.Value < 32 && path.Value < 32)
+	verifrt.Assume(rel.TypeAndNamespace == CombineTypeAndNamespace(b6.FeatureTypeRelation, re) || rel.TypeAndNamespace == CombineTypeAndNamespace(b6.FeatureTypePath, pa))
+	verifrt.Assume(path.TypeAndNamespace == CombineTypeAndNamespace(b6.FeatureTypePath, pa))
+	nss := vC11Namespaces(p, pa, ar, re)
+	var buffer [64]byte
+	a := Area{Polygons: &AreaGeometryReferences{Paths: References{path}}, Relations: References{rel}}
+	n := a.Marshal(&nss, buffer[0:])
+	var got Area
+	m := got.Unmarshal(&nss, buffer[0:])
+	verifrt.Assert(m == n, "consumes-what-was-written")
+	verifrt.Assert(len(got.Relations) == 1 && got.Relations[0] == rel, "relations")
+	g, ok := got.Polygons.(*AreaGeometryReferences)
+	verifrt.Assert(ok && len(g.Paths) == 1 && g.Paths[0] == path, "polygon-paths")
+}
+
+func verifLemma_C11_path_record(area Reference, rel Reference, p, pa, ar, re Namespace) {
+	verifrt.Assume(p < 8 && pa < 8 && ar < 8 && re < 8 && rel.Value < 32 && area.Value < 32)
+	verifrt.Assume(rel.TypeAndNamespace == CombineTypeAndNamespace(b6.FeatureTypeRelation, re))
+	verifrt.Assume(area.TypeAndNamespace == CombineTypeAndNamespace(b6.FeatureTypeArea, ar))
+	nss := vC11Namespaces(p, pa, ar, re)
+	var buffer [64]byte
+	in := Path{Areas: References{area}, Relations: References{rel}}
+	n := in.Marshal(&nss, buffer[0:])
+	var got Path
+	m := got.Unmarshal(&nss, buffer[0:])
+	verifrt.Assert(m == n, "consumes-what-was-written")
+	verifrt.Assert(len(got.Areas) == 1 && got.Areas[0] == area, "areas")
+	verifrt.Assert(len(got.Relations) == 1 && got.Relations[0] == rel, "relations")
+}
+
+func verifLemma_C11_relation_record(mem Member, rel Reference, p, pa, ar, re Namespace) {
+	verifrt.Assume(p < 8 && pa < 8 && ar < 8 && re < 8 && rel.Value < 32 && mem.ID.Value < 32 && mem.Role >= 0 && mem.Role < 16 && mem.Type >= 0 && mem.Type < 4)
+	verifrt.Assume(rel.TypeAndNamespace == CombineTypeAndNamespace(b6.FeatureTypeRelation, re))
+	verifrt.Assume(mem.ID.TypeAndNamespace == CombineTypeAndNamespace(b6.FeatureTypePath, pa))
+	nss := vC11Namespaces(p, pa, ar, re)
+	var buffer [64]byte
+	in := Relation{Members: Members{mem}, Relations: References{rel}}
+	n := in.Marshal(b6.FeatureTypePath, &nss, buffer[0:])
+	var got Relation
+	m := got.Unmarshal(b6.FeatureTypePath, &nss, buffer[0:])
+	verifrt.Assert(m == n, "consumes-what-was-written")
+	verifrt.Assert(len(got.Members) == 1 && got.Members[0] == mem, "members")
+	verifrt.Assert(len(got.Relations) == 1 && got.Relations[0] == rel, "relations")
+}
+
+func verifLemma_C11_point_references(path Reference, rel Reference, p, pa, ar, re Namespace) {
+	verifrt.Assume(p < 8 && pa < 8 && ar < 8 && re < 8 && rel.Value < 32 && path.Value < 32)
+	verifrt.Assume(rel.TypeAndNamespace == CombineTypeAndNamespace(b6.FeatureTypeRelation, re))
+	verifrt.Assume(path.TypeAndNamespace == CombineTypeAndNamespace(b6.FeatureTypePath, pa))
+	nss := vC11Namespaces(p, pa, ar, re)
+	var buffer [64]byte
+	in := FullPoint{PointReferences: PointReferences{Paths: References{path}, Relations: References{rel}}}
+	n := in.Marshal(&nss, buffer[0:])
+	var got FullPoint
+	m := got.Unmarshal(&nss, buffer[0:])
+	verifrt.Assert(m == n, "consumes-what-was-written")
+	verifrt.Assert(len(got.Paths) == 1 && got.Paths[0] == path, "paths")
+	verifrt.Assert(len(got.Relations) == 1 && got.Relations[0] == rel, "relations")
+}
